@@ -315,7 +315,7 @@ def signature(inst, problems):
         shape = "sampler-observable"
     else:
         shape = parts[1]
-    return f"{op}|{shape}|{parts[-1]}|{problems[0][0]}"
+    return f"{op}|{shape}|{problems[0][0]}"
 
 
 def shard(part: core.Part, shard_i, nshards, tier, seed, deadline):
